@@ -185,16 +185,18 @@ class Loaded(object):
         return (bytes(i.bytes), i.mnemonic)
 
 
-def load(data, pagesize=4096, cpu=None):
-    """load_program on bytes or a path, with the configured page size. → Loaded | None."""
+def load(data, pagesize=4096, cpu=None, aslr=False):
+    """load_program on bytes or a path, with the configured page size (and aslr flag). → Loaded | None."""
     conf = setup()
     from amoco.system.core import load_program
-    old = conf.System.pagesize
+    old, olda = conf.System.pagesize, conf.System.aslr
     conf.System.pagesize = pagesize
+    conf.System.aslr = aslr
     try:
         t = load_program(data, cpu) if cpu is not None else load_program(data)
     finally:
         conf.System.pagesize = old
+        conf.System.aslr = olda
     if t is None:
         return None
     return Loaded(t)
